@@ -87,6 +87,10 @@ def faults_for_key(key, bodies, upload_bodies, quick):
     elif '/dst:write' in key or '/fs:write' in key:
         out.append({'at': key, 'phase': 'before', 'kind': 'oserror'})
         out.append({'at': key, 'phase': 'after', 'kind': 'oserror'})
+        # a destination write failing with a connection / timeout class error (pipe reader gone, NFS timeout) is a write
+        # failure, not a retryable download-stream error
+        out.append({'at': key, 'phase': 'before', 'kind': 'brokenpipe'})
+        out.append({'at': key, 'phase': 'before', 'kind': 'timeouterr'})
     elif '/fs:' in key:
         out.append({'at': key, 'phase': 'before', 'kind': 'oserror'})
     elif '/cb:on_queued' in key or '/cb:on_progress' in key:
